@@ -1,44 +1,41 @@
-PROP = {
-    "modules": ["Discv5Model.Props.C09", "Discv5Model.Props.C09Started", "Discv5Model.Props.C09Service"],
-    "lemma_modules": ["Discv5Model.Proofs.QueryLemmas", "Discv5Model.Proofs.QueryStarted", "Discv5Model.Proofs.LookupLemmas"],
-    "engines": [{"name": "query", "quick": 1000, "thorough": 50000}, {"name": "service", "quick": 80, "thorough": 4000}],
-    "rule": "query engine (cases shared with C10): 6/7 of the cases drive one FindNodeQuery or PredicateQuery directly "
-            "with explicit time (parallelism 1..8, num_results 1..24, occasionally 0; peer timeout 0..100): next at "
-            "deadlines -1/0/+1, success / failure for outstanding requests (@k), already answered ones (%k) and "
-            "never-contacted ids, closer lists with new / duplicate / closer / farther ids and the target itself, ids "
-            "that agree with the target in all high bits, a contract mode (at most one terminal event per request, "
-            "fixed predicate value per id) and an adversarial mode; every case ends with a drive-to-Finished and "
-            "into_result. 1/7 drive a QueryPool with 1..6 queries (real time, query timeout 0 or 1 h, poll until "
-            "Idle/Waiting(None), events grouped per query id). After every op the returned QueryState, and for "
-            "FindNodeQuery num_waiting, progress and all peer states (read from the derived Debug), are compared "
-            "with the model. non-trivial = single-query case with >= 3 requests that hit WaitingAtCapacity or a "
-            "late answer, or pool case that handed a non-empty result back. A real-time pool scenario (300 ms query "
-            "timeout, lookups with parallelism 0 or silent peers, 450 ms of silence) checks the cut-off against the wall "
-            "clock. service engine (lookup profile shared with C11): find_node through the real Service with answering, "
-            "failing and silent peers; when the lookup ends the caller must receive a result (possibly empty)",
-    "nontrivial": [("query", "q.nt.c09"), ("query", "q.nt.pool")],
-    "trusted_base": ["Instant arithmetic of std (explicit `now : Nat` in the model; monotone time in the monitors)",
-                     "BTreeMap / FnvHashMap of std/fnv (sorted list / id-indexed list with the visiting order as a parameter)"],
-    "assumptions": ["keys are naturals and distance is Nat.xor (256-bit keys in the code)",
-                    "the predicate closure is abstracted to the boolean it returns for each reported record",
-                    "QueryPool theorems assume the usize id counter does not wrap (fewer than 2^64 queries added)",
-                    "that poll is called again after the query timeout (service wake-ups) is outside the model",
-                    "pool-level correspondence uses real time without expiring timeouts (query timeout 0 or 1 h, peer "
-                    "timeout 1 h) and compares the events of a drained poll per query id (hash-map order independent)"],
-    "engine": "query",
-    "design_ref": "DESIGN.md section 5 / C09",
-    "technique": "Lean 4 invariants over all event histories of an executable model of FindNodeQuery / PredicateQuery / "
-                 "QueryPool (in-flight counter, issuing bound, duplicate-free requests, request bound, timeout cut-off, "
-                 "single hand-back) + differential correspondence run with ledger monitors against the real state machines",
-    "level_text": "Proof: for every initial candidate list, configuration and history of next / on_success / on_failure "
-                  "calls (any order, late / duplicate / unsolicited answers) num_waiting equals the number of Waiting "
-                  "peers, a request is issued only below the parallelism (iterating) resp. num_results (stalled) bound, "
-                  "no peer is handed out twice, at most |known ids| requests are issued; for every pool history and "
-                  "every hash-map visiting order a poll past the query timeout hands out a request or removes a query, "
-                  "and no query id is handed back twice or reachable afterwards. The model is tied to /repo by a "
-                  "differential run on every check and by lookups through the real Service (the caller's future must "
-                  "resolve to a result when the lookup ends)."
-                  ' Also: the pool stamps a lookup at its first poll and nothing moves the stamp afterwards, so the cut-off comes query_timeout after the first poll whatever was answered in between (Props/C09Started.lean).',
-    "level_note": "Trusted: Lean kernel, harness/driver. The tie model<->code is a sampled differential check, not a "
-                  "proof. Liveness beyond the model (poll being called again) is a runtime assumption.",
-}
+PROP = {'modules': ['Discv5Model.Props.C09', 'Discv5Model.Props.C09Started', 'Discv5Model.Props.C09Service'],
+ 'lemma_modules': ['Discv5Model.Proofs.QueryLemmas', 'Discv5Model.Proofs.QueryStarted', 'Discv5Model.Proofs.LookupLemmas'],
+ 'engines': [{'name': 'query', 'quick': 1000, 'thorough': 50000}, {'name': 'service', 'quick': 80, 'thorough': 4000}],
+ 'rule': 'query engine (cases shared with C10): 6/7 of the cases drive one FindNodeQuery or PredicateQuery directly with explicit time (parallelism 1..8, '
+         'num_results 1..24, occasionally 0; peer timeout 0..100): next at deadlines -1/0/+1, success / failure for outstanding requests (@k), already '
+         'answered ones (%k) and never-contacted ids, closer lists with new / duplicate / closer / farther ids and the target itself, ids that agree with the '
+         'target in all high bits, a contract mode (at most one terminal event per request, fixed predicate value per id) and an adversarial mode; every case '
+         'ends with a drive-to-Finished and into_result. 1/7 drive a QueryPool with 1..6 queries (real time, query timeout 0 or 1 h, poll until '
+         'Idle/Waiting(None), events grouped per query id). After every op the returned QueryState, and for FindNodeQuery num_waiting, progress and all peer '
+         'states (read from the derived Debug), are compared with the model. non-trivial = single-query case with >= 3 requests that hit WaitingAtCapacity or '
+         'a late answer, or pool case that handed a non-empty result back. A real-time pool scenario (300 ms query timeout, lookups with parallelism 0 or '
+         'silent peers, 450 ms of silence) checks the cut-off against the wall clock. service engine (lookup profile shared with C11): find_node through the '
+         'real Service with answering, failing and silent peers; when the lookup ends the caller must receive a result (possibly empty)',
+ 'nontrivial': [('query', 'q.nt.c09'), ('query', 'q.nt.pool')],
+ 'trusted_base': ['Instant arithmetic of std (explicit `now : Nat` in the model; monotone time in the monitors)',
+                  'BTreeMap / FnvHashMap of std/fnv (sorted list / id-indexed list with the visiting order as a parameter)'],
+ 'assumptions': ['keys are naturals and distance is Nat.xor (256-bit keys in the code)',
+                 'the predicate closure is abstracted to the boolean it returns for each reported record',
+                 'QueryPool theorems assume the usize id counter does not wrap (fewer than 2^64 queries added)',
+                 'that poll is called again after the query timeout (service wake-ups) is outside the model',
+                 'pool-level correspondence uses real time without expiring timeouts (query timeout 0 or 1 h, peer timeout 1 h) and compares the events of a '
+                 'drained poll per query id (hash-map order independent)'],
+ 'engine': 'query',
+ 'design_ref': 'DESIGN.md section 5 / C09',
+ 'technique': 'Lean 4 invariants over all event histories of an executable model of FindNodeQuery / PredicateQuery / QueryPool (in-flight counter, issuing '
+              'bound, duplicate-free requests, request bound, timeout cut-off, single hand-back) + differential correspondence run with ledger monitors '
+              "against the real state machines + Lean 4 composition of the service model with the query model (the service's lookups are query histories; one "
+              "result per lookup), tied by the service engine (the driver predicts a lookup's requests and result)",
+ 'level_text': 'Proof: for every initial candidate list, configuration and history of next / on_success / on_failure calls (any order, late / duplicate / '
+               'unsolicited answers) num_waiting equals the number of Waiting peers, a request is issued only below the parallelism (iterating) resp. '
+               'num_results (stalled) bound, no peer is handed out twice, at most |known ids| requests are issued; for every pool history and every hash-map '
+               'visiting order a poll past the query timeout hands out a request or removes a query, and no query id is handed back twice or reachable '
+               "afterwards. The model is tied to /repo by a differential run on every check and by lookups through the real Service (the caller's future must "
+               'resolve to a result when the lookup ends). Also: the pool stamps a lookup at its first poll and nothing moves the stamp afterwards, so the '
+               'cut-off comes query_timeout after the first poll whatever was answered in between (Props/C09Started.lean). Also (Props/C09Service.lean, '
+               'Model/Lookup.lean): the lookups the service actually runs - service model composed with the query state machine (start of a lookup from the '
+               'routing table, the query_event_poll arm, discovered -> on_success, rpc_failure -> on_failure, hand-over of the result) - are query histories '
+               'over every history of service steps, so the theorems above hold of them; one result per lookup; result size bounded. The service driver '
+               'predicts every request a lookup sends and the result it hands over; both are compared with the implementation.',
+ 'level_note': 'Trusted: Lean kernel, harness/driver. The tie model<->code is a sampled differential check, not a proof. Liveness beyond the model (poll being '
+               'called again) is a runtime assumption.'}
